@@ -64,13 +64,5 @@ Definition bool_ok (m : metric) : bool :=
 
 Definition row_ok (m : metric) : bool := unit_ok m && bool_ok m.
 
-(** Known defective row classes: 1 = boolean rows (F10: format_bool! inverted),
-    2 = offset_from_master / mean_delay under _nanoseconds (F11). *)
-Definition row_kf (m : metric) : Z :=
-  if m_bool m then 1
-  else if (String.eqb (m_name m) "offset_from_master" || String.eqb (m_name m) "mean_delay")
-          && munit_eqb (m_unit m) (Some Nanoseconds) then 2
-  else 0.
-
-Definition defective_rows : list (string * Z) :=
-  map (fun m => (m_name m, row_kf m)) (filter (fun m => negb (row_ok m)) metric_table).
+Definition defective_rows : list string :=
+  map m_name (filter (fun m => negb (row_ok m)) metric_table).
